@@ -29,7 +29,7 @@ def gen_cases(rng, tier):
     n = {'quick': 70, 'thorough': 700, 'search': 350}[tier]
     cases = []
     for i in range(n):
-        hs = [rng.pick(['a', 'b', 'A', 'a (1)', 'a (2)', 'c', 'B', 'x']) for _ in range(rng.randint(1, 6))]
+        hs = [rng.pick(['a', 'b', 'A', 'a (1)', 'a (2)', 'c', 'B', 'x', 'growth %', '%s', '100%%', 'a']) for _ in range(rng.randint(1, 6))]
         cases.append({'kind': 'headers', 'headers': hs, 'cs': rng.chance(0.6),
                       'fmt': rng.pick([[' (', ')'], ['_', ''], ['.', '']])})
     for i in range(n):
@@ -39,7 +39,7 @@ def gen_cases(rng, tier):
     for i in range(n):
         ncols = rng.randint(1, 4)
         if rng.chance(0.3):
-            hs = [rng.pick(['a', 'A', 'b', 'a']) for _ in range(ncols)]
+            hs = [rng.pick(['a', 'A', 'b', 'a', 'share %', 'share %', '%d']) for _ in range(ncols)]
         else:
             hs = rng.sample(HEADERS, ncols)
         pool = rng.sample(CELLS, rng.randint(3, 9))
@@ -63,6 +63,11 @@ def gen_cases(rng, tier):
         rows = [[str(rng.randint(0, 9)) if rng.chance(0.8) else rng.pick(['x', '', '1.5']), rng.pick(['u', 'v']),
                  rng.pick(['1.5', '2', '0.25'])] for _ in range(rng.randint(1, 8))]
         cases.append({'kind': 'cast_schema', 'rows': rows, 'policy': rng.pick(['raise', 'drop', 'ignore', 'clear'])})
+    # limit_rows with schema casting: exactly the first n rows, whatever stands in the line after them
+    for n_ in (1, 3):
+        for pol in ('raise', 'drop'):
+            rows = [[str(j), 'u', '1.5'] for j in range(n_)] + [['oops', 'v', '2']] + [['7', 'u', '0.25']]
+            cases.append({'kind': 'cast_schema', 'rows': rows, 'policy': pol, 'limit': n_})
     cases += gen_select_cases(rng, max(16, n // 4))
     for i in range(max(16, n // 3)):
         # schema casting with the schema inferred from the file itself (all rows are inside the inference sample): no row
@@ -206,7 +211,7 @@ def run_impl(case):
         path = os.path.join(scratch(), 'c_%s.csv' % digest(case))
         open(path, 'w', newline='', encoding='utf-8').write(text)
         pol = {'raise': Load.ERRORS_RAISE, 'drop': Load.ERRORS_DROP, 'ignore': Load.ERRORS_IGNORE, 'clear': Load.ERRORS_CLEAR}[case['policy']]
-        out = run_stream([], [Load(path, name='res', cast_strategy=Load.CAST_WITH_SCHEMA, on_error=pol,
+        out = run_stream([], [Load(path, name='res', cast_strategy=Load.CAST_WITH_SCHEMA, on_error=pol, limit_rows=case.get('limit'),
                                    override_fields={'n': {'type': 'integer'}, 'm': {'type': 'number'}}, infer_strategy=Load.INFER_STRINGS)])
         if 'error' in out:
             return {'error': out['error'], 'exc': out['exc'], 'exc_type': out.get('exc_type')}
@@ -346,7 +351,7 @@ def oracle(case, out):
                     return 'cell %r was delivered as %r' % (c, g[h])
         return None
     if k == 'cast_schema':
-        rows = case['rows']
+        rows = case['rows'][:case['limit']] if case.get('limit') else case['rows']
         bad = [i for i, r in enumerate(rows) if not re.fullmatch(r'-?\d+', r[0].strip()) and r[0].strip() != '']
         pol = case['policy']
         if pol == 'raise':
